@@ -30,6 +30,7 @@ RULE = ('cases = G-PIT / G-MPS (per-layer, per-channel with 0 bit) / G-SN progra
         'the configuration.')
 RULE += ('  Round 2: in half of the cases the architecture is logged (summary / str / get_cost / export) between the last forward and the checkpoint.')
 RULE += ('  Round 4: first observation "as is" (one forward in whatever mode the model is in, right after load_state_dict); Gumbel configurations; PIT masks pruned for real in every other case.')
+RULE += ('  Round 5: seeds that take the same residual sum twice.')
 ASSUMPTIONS = [
     'constructor arguments and option calls are configuration and are re-applied through the '
     'public API; only what state_dict claims to carry is expected to survive',
